@@ -8,7 +8,8 @@
 (* must return Complete exactly when the blocks received since the last     *)
 (* completion cover the datagram, with the original bytes and header.  The  *)
 (* expiry callback of arrival `tok` frees the buffer iff no piece of that   *)
-(* datagram arrived after `tok` (and the buffer was not completed since).   *)
+(* datagram arrived after `tok` (and the buffer was not completed since);   *)
+(* whether it did is observed by the harness (`culled`), not predicted.     *)
 (***************************************************************************)
 EXTENDS Integers, Sequences, FiniteSets, TLC, Json, IOUtils
 Rec == ndJsonDeserialize(IOEnv.TRACE)
@@ -39,13 +40,17 @@ Rx(t, e) ==
                           ELSE [cov |-> cov1, L |-> L1, alloc |-> TRUE, last |-> e.i,
                                 since |-> IF cur.alloc THEN cur.since ELSE e.i, cnt |-> cur.cnt + 1]]
 Expire(t, e) ==
-  LET cur == t.b[e.k] IN
-  IF cur.alloc /\ cur.last = e.tok THEN [t EXCEPT !.b[e.k] = Fresh]
-  \* known finding K5: epochs restart with every buffer, so the callback of a buffer that has been freed
-  \* matches a newer buffer of a datagram with the same identification (the spec then follows the code)
-  ELSE IF cur.alloc /\ e.tok < cur.since /\ e.epoch = cur.cnt
-  THEN [Viol(t, e, "[K5] the expiry callback of a freed buffer discarded a newer datagram with the same identification") EXCEPT !.b[e.k] = Fresh]
-  ELSE t
+  LET cur == t.b[e.k]
+      \* the callback of arrival `tok` frees the buffer iff it is the latest arrival of the buffer that is allocated now
+      due == cur.alloc /\ cur.last = e.tok
+      t1 == IF e.culled /\ ~due
+            THEN Viol(t, e, IF cur.alloc /\ e.tok < cur.since
+                            THEN "the expiry callback of a freed buffer discarded a newer datagram with the same identification"
+                            ELSE "an incomplete datagram was discarded although fragments arrived after the expiring timer was set")
+            ELSE IF ~e.culled /\ due THEN Viol(t, e, "an incomplete datagram was not discarded when its timer expired without new fragments")
+            ELSE t
+  \* follow the code
+  IN IF e.culled THEN [t1 EXCEPT !.b[e.k] = Fresh] ELSE t1
 Step(t, e) ==
   LET t0 == [t EXCEPT !.events = @ + 1] IN
   IF e.ev = "reset" THEN [t0 EXCEPT !.run = e.run, !.b = [k \in K |-> Fresh], !.runs = @ + 1]
